@@ -220,22 +220,25 @@ def replay(data):
     mm = e1.noise_dim(nt, d, m)
     mk = sdes.Maker(symbolic=False, env=r.get('model') or {}, seed=73)
     base = sdes.PolySDE(mk, 'stratonovich', nt, d=d, m=mm, degt=1, degy=2)
-    t = mk('t', (), values=0.3); y = mk('y', (1, d)); v = mk('v', (1, mm)); w = mk('w', (1, mm))
+    t = mk('t', (), values=0.3); y = mk('y', (nb, d)); v = mk('v', (nb, mm)); w = mk('w', (nb, mm))
     fs = base_sde.ForwardSDE(base)
-    J = torch.autograd.functional.jacobian(lambda yy: base.g(t, yy), y)      # g shape + (1,d)
-    g = base.g(t, y)
     bad = False
-    if nt != 'general' and nt != 'additive':
-        _, gdg = fs.g_prod_and_gdg_prod(t, y, v, w)
-        if nt == 'diagonal':
-            want = torch.stack([g[0, i] * J[0, i, 0, i] * w[0, i] for i in range(d)])
-        else:
-            want = torch.stack([sum(g[0, l, j] * J[0, i, j, 0, l] * w[0, j] for j in range(mm) for l in range(d)) for i in range(d)])
-        err = float((gdg.reshape(-1) - want).abs().max()); print('replay C16 gdg err', err); bad |= err > 1e-9
-    if nt == 'general':
-        Ax = mk('Ax', (1, mm, mm)); A = Ax - Ax.transpose(-1, -2)
-        for fast in (False, True):
-            out = base_sde.ForwardSDE(base, fast_dg_ga_jvp_column_sum=fast).dg_ga_jvp_column_sum(t, y, A)
-            want = torch.stack([sum(J[0, i, l, 0, j] * g[0, j, k] * A[0, k, l] for j in range(d) for k in range(mm) for l in range(mm)) for i in range(d)])
-            err = float((out.reshape(-1) - want).abs().max()); print('replay C16 dg_ga err', fast, err); bad |= err > 1e-9
+    for b in range(nb):
+        yb = y[b:b + 1]
+        J = torch.autograd.functional.jacobian(lambda yy: base.g(t, yy), yb)      # g shape + (1,d)
+        g = base.g(t, yb)
+        if nt != 'general' and nt != 'additive':
+            _, gdg = fs.g_prod_and_gdg_prod(t, y, v, w)
+            if nt == 'diagonal':
+                want = torch.stack([g[0, i] * J[0, i, 0, i] * w[b, i] for i in range(d)])
+            else:
+                want = torch.stack([sum(g[0, l, j] * J[0, i, j, 0, l] * w[b, j] for j in range(mm) for l in range(d)) for i in range(d)])
+            err = float((gdg[b].reshape(-1) - want).abs().max()); print('replay C16 gdg err row', b, err); bad |= err > 1e-9
+        if nt == 'general':
+            if b == 0:
+                Ax = mk('Ax', (nb, mm, mm)); A = Ax - Ax.transpose(-1, -2)
+            for fast in (False, True):
+                out = base_sde.ForwardSDE(base, fast_dg_ga_jvp_column_sum=fast).dg_ga_jvp_column_sum(t, y, A)
+                want = torch.stack([sum(J[0, i, l, 0, j] * g[0, j, k] * A[b, k, l] for j in range(d) for k in range(mm) for l in range(mm)) for i in range(d)])
+                err = float((out[b].reshape(-1) - want).abs().max()); print('replay C16 dg_ga err row', b, 'fast' if fast else 'v1', err); bad |= err > 1e-9
     return bad
